@@ -180,7 +180,8 @@ pub fn run(ctx: &mut Ctx, prop: &str) {
     // containers whose string forms share prefixes around the "," separator (and, for == / ===, that
     // are structurally identical): all arrays of length 1..2 over a 10-element alphabet, pairwise
     {
-        let el: Vec<Value> = ["1", "10", r#""1""#, r#""a""#, r#""a b""#, r#""a,b""#, "[1,2]", "[1]", "null", r#""""#, "[]", "[[]]", "[null]"].iter().map(|t| al::parse(t)).collect();
+        // (1 / 1.0 / -0.0 / 0, 2^53 / 2^53+1: the same double in different spellings next to each other)
+        let el: Vec<Value> = ["1", "10", r#""1""#, r#""a""#, r#""a b""#, r#""a,b""#, "[1,2]", "[1]", "null", r#""""#, "[]", "[[]]", "[null]", "1.0", "0", "-0.0", "9007199254740992", "9007199254740993", "true"].iter().map(|t| al::parse(t)).collect();
         let mut arrs: Vec<Value> = Vec::new();
         for x in &el {
             arrs.push(json!([x]));
@@ -248,11 +249,21 @@ pub fn run(ctx: &mut Ctx, prop: &str) {
     }
     // radix literal families and integer digit strings against a few numbers (the conversion runs inside every
     // comparison)
-    for x in al::radix_families().into_iter().chain(al::integer_digit_strings()) {
+    for x in al::radix_families().into_iter().chain(al::integer_digit_strings()).chain(al::decimal_strings()) {
         if !ctx.mine() {
             continue;
         }
-        for y in [json!(0), json!(1), json!("0"), json!(1.8446744073709552e19), json!(true), json!([0]), json!(18446744073709551615u64), json!(1e30), json!(-1e19)] {
+        let mut partners = vec![json!(0), json!(1), json!("0"), json!(1.8446744073709552e19), json!(true), json!([0]), json!(18446744073709551615u64), json!(1e30), json!(-1e19)];
+        // the double the text denotes (correctly rounded) and its two neighbours: equal to the first, unequal to
+        // and ordered against the others
+        if let Some(f) = x.as_str().and_then(|t| t.trim().parse::<f64>().ok()).filter(|f| f.is_finite() && *f != 0.0) {
+            for g in [f, f64::from_bits(f.to_bits() + 1), f64::from_bits(f.to_bits() - 1)] {
+                if g.is_finite() {
+                    partners.push(json!(g));
+                }
+            }
+        }
+        for y in partners {
             ctx.edge();
             for k in ops {
                 ctx.check(&format!("{}:radix-family", k), &op(k, vec![x.clone(), y.clone()]), &null);
@@ -331,6 +342,31 @@ pub fn run(ctx: &mut Ctx, prop: &str) {
                             }
                         }
                         ctx.check(&format!("{}:between:ladder:V", k), &op(k, vec![json!({"var": 0}), json!({"var": 1}), json!({"var": 2})]), &Value::Array(t.to_vec()));
+                    }
+                }
+            }
+        }
+        // between as the predicate / per-element expression of an iteration, the current element in each of the
+        // three operand positions (a predicate is evaluated like any other expression: all three operands count)
+        {
+            let elems = json!([1, 2, 3, 4, 6, "5", null, [3], "a", 2.5]);
+            let consts: Vec<Value> = [json!(3), json!(5), json!("5"), json!(7), json!(1), json!(null), json!("a")].to_vec();
+            for b in &consts {
+                if !ctx.mine() {
+                    continue;
+                }
+                for c in &consts {
+                    ctx.edge();
+                    for k in ops {
+                        for (pos, args) in [(0, vec![json!({"var": ""}), b.clone(), c.clone()]), (1, vec![b.clone(), json!({"var": ""}), c.clone()]), (2, vec![b.clone(), c.clone(), json!({"var": ""})])] {
+                            let pred = op(k, args);
+                            for h in ["filter", "map", "all", "some", "none"] {
+                                ctx.check(&format!("{}:between:in-iteration:{}", k, pos), &op(h, vec![json!({"var": "xs"}), pred.clone()]), &json!({"xs": elems}));
+                            }
+                            ctx.check(&format!("{}:between:in-iteration:{}:L", k, pos), &op("filter", vec![elems.clone(), pred.clone()]), &null);
+                        }
+                        // two operands in the same places, for contrast
+                        ctx.check(&format!("{}:pair:in-iteration", k), &op("filter", vec![json!({"var": "xs"}), op(k, vec![json!({"var": ""}), b.clone()])]), &json!({"xs": elems}));
                     }
                 }
             }
